@@ -117,6 +117,32 @@ def audit(prop: str):
     return res
 
 
+def recheck(prop: str):
+    """Thorough tier: the toolchain's independent checker replays, from the compiled .olean files, every
+    declaration of the modules that hold this property's theorems (the imports of its audit file inside
+    this library: property files, kernel-evaluation modules, lifting lemmas)."""
+    mods = []
+    with open(os.path.join(LEAN, 'PK', 'Audit', f'{prop}.lean')) as f:
+        for ln in f:
+            m = re.match(r'import (PK\.[\w.]+)', ln)
+            if m:
+                mods.append(m.group(1))
+    extra = {'C04': ['PK.Properties.C04Kernel', 'PK.Properties.C04KernelRegular', 'PK.Properties.C04KernelSmall',
+                     'PK.Proofs.TableCheck', 'PK.Proofs.TableLift', 'PK.Spec.Ranking'],
+             'C13': ['PK.Properties.C13KernelLow', 'PK.Properties.C13KernelHigh', 'PK.Proofs.TableCheck',
+                     'PK.Proofs.TableLift', 'PK.Spec.Ranking']}
+    mods += extra.get(prop, [])
+    from concurrent.futures import ThreadPoolExecutor
+    def one(mod):
+        rc, out, err = sh(['lake', 'env', 'leanchecker', mod], cwd=LEAN, timeout=3600)
+        return mod, rc, (out + err)[-1500:]
+    with ThreadPoolExecutor(max_workers=4) as ex:
+        for mod, rc, msg in ex.map(one, mods):
+            if rc != 0:
+                raise Infra(f'leanchecker rejected {mod}:\n{msg}')
+    return mods
+
+
 # ---------------------------------------------------------------- known findings
 def load_known():
     path = os.path.join(VERIF, 'known_findings.json')
